@@ -50,10 +50,23 @@ func init() {
 		x.StrList("transmitCallers", c14Callers(x, routingDir, ".transmit"))
 		x.StrList("updateCallers", c14Callers(x, routingDir, "idKeeper.update"))
 
+		// From here on nothing returns early: a function that no longer exists is recorded as an
+		// extraction failure (`gen_no_extraction_failure` breaks) and its facts get empty values, so
+		// that every name the Lean side mentions stays defined.
+		skel := func(name, dir, recv, fn string) {
+			if fd, err := x.Func(dir, recv, fn); err == nil {
+				x.StrList(name, x.Skeleton(fd))
+			} else {
+				x.Failf("%v", err)
+				x.StrList(name, nil)
+			}
+		}
+
 		// ---- IdKeeper.update
 		up, err := x.Func(routingDir, "IdKeeper", "update")
 		if err != nil {
-			return err
+			x.Failf("%v", err)
+			up = &ast.FuncDecl{Body: &ast.BlockStmt{}}
 		}
 		x.StrList("updateSkeleton", x.Skeleton(up))
 		lockIdx, unlockIdx, firstAcc, lastAcc := -1, -1, -1, -1
@@ -88,21 +101,14 @@ func init() {
 		x.Bool("updateLocked", lockIdx >= 0 && unlockIdx > lockIdx && firstAcc > lockIdx && lastAcc < unlockIdx && firstAcc >= 0)
 		x.Bool("updateWritesSeq", writesSeq)
 
-		if nk, err := x.Func(routingDir, "", "NewIdKeeper"); err == nil {
-			x.StrList("newIdKeeperSkeleton", x.Skeleton(nk))
-		} else {
-			return err
-		}
-		if nt, err := x.Func(routingDir, "", "newIdTuple"); err == nil {
-			x.StrList("newIdTupleSkeleton", x.Skeleton(nt))
-		} else {
-			return err
-		}
+		skel("newIdKeeperSkeleton", routingDir, "", "NewIdKeeper")
+		skel("newIdTupleSkeleton", routingDir, "", "newIdTuple")
 
 		// ---- IdKeeper.clean: skeleton and `threshold = DtnTimeNow() - <constant>`
 		cl, err := x.Func(routingDir, "IdKeeper", "clean")
 		if err != nil {
-			return err
+			x.Failf("%v", err)
+			cl = &ast.FuncDecl{Body: &ast.BlockStmt{}}
 		}
 		x.StrList("cleanSkeleton", x.Skeleton(cl))
 		window := uint64(0)
@@ -129,18 +135,10 @@ func init() {
 		x.Nat("cleanWindow", window)
 		// unit of DtnTime: DtnTimeFromTime divides UnixNano by nanoToMilli
 		x.Nat("nanoToMilli", x.MustConst(bpv7Dir, "nanoToMilli"))
-		if ft, err := x.Func(bpv7Dir, "", "DtnTimeFromTime"); err == nil {
-			x.StrList("dtnTimeFromTimeSkeleton", x.Skeleton(ft))
-		} else {
-			return err
-		}
+		skel("dtnTimeFromTimeSkeleton", bpv7Dir, "", "DtnTimeFromTime")
 
 		// ---- descriptor creation, store push, retransmission
-		if fd, err := x.Func(routingDir, "", "NewBundleDescriptorFromBundle"); err == nil {
-			x.StrList("newDescriptorFromBundleSkeleton", x.Skeleton(fd))
-		} else {
-			return err
-		}
+		skel("newDescriptorFromBundleSkeleton", routingDir, "", "NewBundleDescriptorFromBundle")
 		if fd, err := x.Func(routingDir, "BundleDescriptor", "Sync"); err == nil {
 			sk := x.Skeleton(fd)
 			if len(sk) > 2 {
@@ -148,7 +146,8 @@ func init() {
 			}
 			x.StrList("syncHead", sk)
 		} else {
-			return err
+			x.Failf("%v", err)
+			x.StrList("syncHead", nil)
 		}
 		if fd, err := x.Func(storageDir, "Store", "Push"); err == nil {
 			c := x.Calls(fd)
@@ -161,17 +160,21 @@ func init() {
 			}
 			x.StrList("pushTail", tail)
 		} else {
-			return err
+			x.Failf("%v", err)
+			x.StrList("pushCalls", nil)
+			x.StrList("pushTail", nil)
 		}
 		if fd, err := x.Func(routingDir, "Core", "checkPendingBundles"); err == nil {
 			x.StrList("checkPendingCalls", x.Calls(fd))
 		} else {
-			return err
+			x.Failf("%v", err)
+			x.StrList("checkPendingCalls", nil)
 		}
 		if fd, err := x.Func(routingDir, "AgentManager", "handleMessage"); err == nil {
 			x.StrList("agentHandleMessageCalls", x.Calls(fd))
 		} else {
-			return err
+			x.Failf("%v", err)
+			x.StrList("agentHandleMessageCalls", nil)
 		}
 		return nil
 	})
